@@ -152,7 +152,7 @@ def _trie_task(task, p):
         if np.abs(v2).max() > 32000 or (np.where(valid, v2, nd + 1) == nd).any():
             continue
         g2 = impl_int(v2.astype("int16"), nd)
-        d = np.abs(g2 - got) > TOL
+        d = ~(np.abs(g2 - got) <= TOL)
         p.count("affine", evaluations=N, nontrivial=int(ok.sum()))
         for j in np.nonzero(d)[0][:3]:
             p.violation("affine", {"kernel": "autocorr", "word": vals[j].tolist(), "map": [alpha, beta]},
@@ -392,7 +392,7 @@ def replay(sub, case, p):
         if case["kind"] == "affine":
             a, b = case["map"]
             g2 = impl_int(np.where(valid, vals * a + b, case["nd"]).astype("int16"), case["nd"])
-            if abs(g2[0] - got[0]) > TOL:
+            if not abs(g2[0] - got[0]) <= TOL:
                 p.violation(sub, {}, case, f"affine map changes the value: {got[0]} vs {g2[0]}")
     elif case["kind"] == "attr_history":
         attr_histories(p)
